@@ -271,6 +271,38 @@ def enumerate_cases(ctx, factor):
                 if combo is None:
                     rows[0].pop("save_to")
                 yield "meta-block", mk_form(rows, ents, extra_settings=es, audit=audit)
+    # (5d) question names that collide with names of generated / non-question elements (the EntityDeclaration is called
+    #      `entity`; external-instance rows and the dataset have names too) and are referenced from every entities cell:
+    #      only Question|Section elements take part in ${name} resolution, so all of these are valid
+    def coll(tree_rows, ref, dataset="trees"):
+        for combo in VALID_COMBOS + [(0, 0, 1, 1), (1, 1, 0, 1)]:
+            for shape in (0, 1):
+                ex = [f"${{{ref}}}", f"${{{ref}}} != ''", f"${{{ref}}} = 'u'", f"concat(${{{ref}}}, '-')"] if shape == 0 else \
+                     [f"coalesce(${{{ref}}}, ${{a}})", f"string-length(${{{ref}}}) > 1", "${a} = ''", f"${{{ref}}}"]
+                rows = [dict(r) for r in tree_rows]
+                yield "name-collision", mk_form(rows, [entity_row(rng, combo, dataset=dataset, exprs=ex)])
+
+    q = lambda n, t="text", **kw: dict({"type": t, "name": n, "label": "L " + n}, **kw)  # noqa: E731
+    grp = lambda n, kids: [{"type": "begin group", "name": n, "label": "G"}] + kids + [{"type": "end group"}]  # noqa: E731
+    yield from coll([q("a"), q("entity", save_to="pe")], "entity")
+    yield from coll([q("a")] + grp("g", [q("entity"), q("b", "integer")]), "entity")
+    yield from coll([q("a"), {"type": "csv-external", "name": "trees"}] + grp("g", [q("trees", save_to="pt")]), "trees")
+    yield from coll([q("a"), {"type": "xml-external", "name": "ext"}] + grp("g", [q("ext")]), "ext", dataset="ext")
+    yield from coll([q("a"), q("trees", "integer")], "trees")
+    yield from coll([q("a")] + grp("g", [q("meta"), q("instanceID"), q("label"), q("dataset")]), "dataset", dataset="dataset")
+    yield from coll([q("a")] + grp("entity", [q("b", "integer", save_to="pb")]), "b")
+    # (5e) entity cells from an adversarial alphabet: %-formats, braces, backslashes, markup characters
+    ADV = ["%", "%%", "%s", "%(x)s", "%d", "%3A", "%20", "100%", "{0}", "{}", "{x}", "{", "}", "\\", "\\n", "#", "&", "<", '"', "|",
+           "%%s", "{{}}", "%c%", "$", "$$", "$ {a}"]
+    for atom in ADV:
+        if quick and rng.random() < 0.2:
+            continue
+        for combo in ((1, 0, 0, 0), (1, 0, 1, 0), (1, 1, 1, 1), (0, 0, 0, 1), (0, 1, 0, 1)):
+            for tpl in ("translate(${a}, '%s', '')", "%s", "concat('%s', ${b}, '%s')"):
+                e = tpl.replace("%s", atom)
+                rows, _ = flatten(TREES[1])
+                rows[0]["save_to"] = "pa"
+                yield "adversarial-expression", mk_form(rows, [entity_row(rng, combo, exprs=[e, e, e, e])])
     # (6) types containing group / repeat as a substring (F25 family) at every question position
     for t in F25_TYPES + PLAIN_TYPES:
         for ti in (0, 1, 2):
@@ -538,8 +570,24 @@ def form_case(ctx, label, form):
                              f"(declared on the root: xmlns={obs['xmlns']}, custom={obs['custom_ns']}; prefixes used: {used})",
                              case, extra={"xmlns": obs["xmlns"], "custom_ns": obs["custom_ns"]}))
 
+    # ---- oracle: every bind of the declaration that reads the entity being updated uses the same item predicate
+    #      as @id (`instance('<dataset>')/root/item[name=<entity_id>]/__field`)
+    if obs is not None and obs["entity"] is not None:
+        calc = {dict(n["attrs"]).get("nodeset", ""): dict(n["attrs"]).get("calculate") for n in obs["nodes"] if n["tag"] == "bind"}
+        idc = next((v for k, v in calc.items() if k.endswith("/@id")), None)
+        for k, v in calc.items():
+            for attr, field in (("baseVersion", "__version"), ("trunkVersion", "__trunkVersion"), ("branchId", "__branchId")):
+                if k.endswith("/@" + attr):
+                    ds = dict(obs["entity"]["attrs"]).get("dataset", "")
+                    want = f"instance('{ds}')/root/item[name={idc}]/{field}"
+                    if idc is None or v != want:
+                        ctx.fail(Failure("version-predicate-differs",
+                                         f"@{attr} is calculated as {v!r}, but @id as {idc!r} (expected {want!r})", case))
+
     # ---- oracle: the documented table, on the implementation's output
-    if spec["outcome"] == "rejected":
+    if spec["outcome"] == "unsupported":
+        ctx.count("spec-unsupported:" + spec.get("why", ""))
+    elif spec["outcome"] == "rejected":
         if r["ok"]:
             ctx.fail(Failure("accepted-invalid", "a form the documented rules reject was converted", case,
                              extra={"observed": {k: obs[k] for k in KEYS}}))
